@@ -8,7 +8,7 @@ BASE_NOTE = ("Trusted base: the reference model in harness/ref (bit-slice BIP39 
              "rapid v1.3.0 and the Go toolchain. Generated-input search never establishes absence.")
 
 # id -> (built, category, technique, level text, level note, design ref)
-BUILT = set("C01 C02 C03 C04 C05 C08 C09 C10 C11 C15 C16".split())
+BUILT = set(["C%02d" % i for i in range(1, 18)])
 
 # id -> (category, technique, level text, extra note, design ref)
 P = {
@@ -24,6 +24,18 @@ P = {
          "differential accept-set scans (all 2048 last words / all substitutions) against the reference validator + one-directional soundness oracle on defect-mutated and arbitrary strings; native go fuzzing of a structured sentence-mutation target in the thorough tier",
          "For generated prefixes all 2048 final words are validated and the accepted set must be exactly the reference's 2^(11-n/3) solutions; all substitutions at generated positions; tens of thousands of single-defect mutants and arbitrary Unicode/byte strings must never be accepted unless the most liberal reading (strings.Fields of the NFKD form) is a valid mnemonic; IsMnemonicValid must agree with CheckMnemonic everywhere.",
          "A stricter-than-necessary validator (e.g. rejecting doubled spaces) is deliberately not flagged.", "6/C03"),
+ "C12": ("exploration",
+         "rapid-generated goroutine plans executed one per fresh -race process; oracle = Go race detector report + reference model + in-process solo replay",
+         "Each plan releases 2..16 goroutines together in a process that has not used the package, arranged so that several make the first use of the same language, followed by warm phases; GOMAXPROCS and yields vary. Any race-detector report, panic, or result differing from the reference model or from the same call run alone is a violation.",
+         "Schedules are sampled, not enumerated; the race detector flags unsynchronised access pairs that are executed, largely independent of the interleaving taken.", "6/C12"),
+ "C13": ("exploration",
+         "model-based / metamorphic testing of call histories, each executed in a fresh process and again permuted in a second fresh process",
+         "All 100 ordered pairs of first-used languages x 4 first-call patterns, and generated histories of up to 40+ calls over all entry points (unsupported languages, failing calls, re-used arguments, scripted sources, spare-capacity entropy slices) are run from a cold start; each observation must equal the history-free reference, the observation of the same call in a differently ordered process, and repeated calls must agree; caller buffers and earlier results are re-checked at the end.",
+         "", "6/C13"),
+ "C14": ("exploration",
+         "robustness testing: grid over Language values and sizes, rapid-generated hostile arguments with a hang watchdog, coverage-guided native fuzzing in the thorough tier",
+         "Every entry point is called with every Language in [-300,300] and at integer boundaries, entropy lengths 0..1024 (thorough 0..4096), word counts at boundaries, sentences of 1..61 real words, invalid UTF-8, NULs, and 0.5-4 MiB inputs; rapid draws and (thorough) two native fuzz targets extend this. A recovered panic or a call exceeding 120 s is a violation.",
+         "\"Never hangs\" is decided up to the 120 s bound.", "6/C14"),
  "C15": ("exploration",
          "generated single-defect sentences re-classified by the reference model, errors.Is / message-content oracle",
          "Sentences with exactly one defect class (count only, checksum only, unknown token with acceptable count) are generated over all languages and sizes (counts 0..40 exhaustively) and the returned error must match ErrWordLen / ErrChecksumIncorrect / be a non-sentinel error naming an unknown token; valid sentences must give nil.",
@@ -44,6 +56,14 @@ P = {
          "round-trip through an independent decoder + metamorphic single-bit-flip relation",
          "Sentences returned for the pairwise table and for random structured entropies are decoded by the reference decoder and must give back the entropy; for the random cases all ENT single-bit flips must change the sentence and decode to the flipped entropy.",
          "", "6/C05"),
+ "C06": ("fault_enumeration",
+         "complete enumeration of failure point x failure kind x fragmentation x language under a scripted randomness source (verif hook) + rapid-generated reader scripts, against the reference encoder",
+         "Every failure point k in 0..4n/3-1 for each of the five counts, three failure kinds, error alone or with bytes, three fragmentations and ten languages is injected (21 600 scripts), plus every fragmentation class of a successful delivery and tens of thousands of random scripts; the bytes delivered before the first failure decide the expected outcome exactly; the source keeps delivering after a failure so retry/fallback behaviour is visible.",
+         "The one boundary the text leaves open (error returned together with the completing bytes) accepts either outcome.", "6/C06"),
+ "C07": ("exploration",
+         "fresh-process probing of source identity through the verif hook, byte-exact tee oracle, and distinctness/monobit sanity over default outputs",
+         "In freshly started processes, after generated histories of non-swapping calls, the value the swap hook returns must be crypto/rand.Reader itself; NewMnemonic called through a recording tee around that source must return exactly the reference encoding of the bytes drawn; outputs never repeat across calls or processes and no entropy bit is biased beyond 8 sigma.",
+         "Randomness quality cannot be established by sampling; the claim rests on identity plus byte-exactness.", "6/C07"),
  "C08": ("exploration",
          "complete enumeration of the finite domain 10 x 2048 against embedded golden lists, plus accept-set scans per word",
          "The word the API emits for each of the 10 x 2048 indices is compared with golden lists (digest-pinned) and checked for the stated structural facts; for each word, sentences containing it are scanned over candidate last words and the accepted set must equal the reference solution set for that index. Exhaustive over the finite domain; the canonical lists themselves are trusted data.",
@@ -52,6 +72,10 @@ P = {
          "exhaustive range enumeration of lengths and counts + rapid Int generation, with a counting randomness source installed through the verif hook",
          "Every entropy length 0..4096 (thorough 0..65536, plus MiB sizes) and every word count in [-4096,4096] (thorough +-10^6), int extremes and values congruent to valid counts modulo 2^32 are tried; success iff one of the five sizes, otherwise the sentinel error, the empty string and zero reads of the source.",
          "", "6/C09"),
+ "C17": ("exploration",
+         "round-trip testing of the real tool binary (built with the verif hook) on rapid-generated upstream files served over loopback HTTP; output parsed with go/parser and type-checked with go/types",
+         "The generator is run on ten different generated word files per case (blank lines, missing final newline, Latin+diacritics, Han, kana, Hangul, arbitrary letters/marks, up to 3000 lines), on the canonical lists, and on an alphabet file with every Unicode letter and mark; every output must parse and type-check, declare the variable lang.go consumes, and contain exactly the non-empty input lines; the canonical run must equal the committed sources and the lists the API emits (thorough: the module is rebuilt with the generated files).",
+         "Formatting is not compared; CRLF input and characters html/template escapes are outside the stated domain.", "6/C17"),
  "C16": ("exploration",
          "exhaustive range enumeration + rapid Int64 generation against a name table keyed by the declared constants",
          "Every Language value in [-100000,100000] (thorough: [-2^24,2^24]) plus all integer-width boundaries and random int64 draws is printed and compared with the declared identifier / \"Language(N)\"; panics are caught. The finite part people can reach by mistake is exhaustive; the rest of int64 is sampled.",
